@@ -313,7 +313,8 @@ func c12r2(c *core.Ctx) {
 			cmp   *ssa.BinOp
 			other ssa.Value
 			bound ssa.Value
-		}{{"maximum", find(token.GTR, maxV), minOK, maxV}, {"minimum", find(token.LSS, minV), maxOK, minV}} {
+			this  ssa.Value
+		}{{"maximum", find(token.GTR, maxV), minOK, maxV, maxOK}, {"minimum", find(token.LSS, minV), maxOK, minV, minOK}} {
 			key := "clamp-" + spec.what + "@" + fname(f)
 			if spec.cmp == nil {
 				c.Bad(key, f.Pos(), "the "+spec.what+" is never compared with the value")
@@ -325,6 +326,33 @@ func c12r2(c *core.Ctx) {
 			// and its true edge leads to a return of the bound
 			c.Check(reach, key, spec.cmp.Pos(), "the "+spec.what+" is enforced whether or not the other bound is declared",
 				"the "+spec.what+" is only enforced when the other bound is declared as well: characteristics with a one-sided range accept out-of-range values")
+			// ... it is consulted only where it is declared, and where the value is beyond it the bound is what comes back
+			var cmpIf *ssa.If
+			for _, r := range *spec.cmp.Referrers() {
+				if iff, ok := r.(*ssa.If); ok {
+					cmpIf = iff
+				}
+			}
+			if cmpIf == nil {
+				c.Undecided("clamp-effect-"+spec.what+"@"+fname(f), spec.cmp.Pos(), "the comparison does not decide a branch")
+				continue
+			}
+			declared := core.TrueFact(func(v ssa.Value) bool { return v == spec.this })
+			okDecl := core.Dominated(cmpIf, declared)
+			beyond, wrong := 0, 0
+			core.EnumPaths(f, 2, 20000, func(pa core.Path) {
+				ret := pa.Returns()
+				if ret == nil || !pa.TookEdge(cmpIf.Block(), 0) {
+					return
+				}
+				beyond++
+				got := core.StripConv(pa.ResolveAt(len(pa)-1, core.StripConv(res(ret)[0])))
+				if got != core.StripConv(spec.bound) {
+					wrong++
+				}
+			})
+			c.Check(okDecl && beyond > 0 && wrong == 0, "clamp-effect-"+spec.what+"@"+fname(f), spec.cmp.Pos(), "where the value is beyond the declared "+spec.what+" the "+spec.what+" is returned",
+				"the "+spec.what+" is compared but not enforced (the value is returned unchanged, or the bound is consulted where it is not declared): values outside the declared range are stored")
 		}
 	}
 }
